@@ -21,8 +21,11 @@ import (
 	"io"
 	"net"
 	"path/filepath"
+	"runtime/debug"
 	"sort"
+	"strings"
 	"sync"
+	"sync/atomic"
 	"testing"
 	"time"
 
@@ -157,7 +160,23 @@ func (r *vfC02MuxRun) run(watchdog time.Duration) (stalled bool) {
 		defer close(done)
 		defer func() {
 			if p := recover(); p != nil {
-				r.mismatch(len(r.log), "mux-panic", fmt.Sprintf("panic in the channel code: %v", p), "no panic", fmt.Sprint(p))
+				// calls into the code under test run on this goroutine too; the stack tells them apart
+				st := string(debug.Stack())
+				if i := strings.Index(st, "panic("); i >= 0 {
+					st = st[i:]
+				}
+				first := ""
+				for _, ln := range strings.Split(st, "\n") {
+					if strings.HasPrefix(ln, "\t") && !strings.Contains(ln, "/runtime/") {
+						first = ln
+						break
+					}
+				}
+				if strings.Contains(first, "zz_verif_") || strings.Contains(first, "internal/vf") {
+					r.mismatch(len(r.log), "MACHINERY", fmt.Sprintf("panic in the harness: %v at %s", p, first), nil, nil)
+				} else {
+					r.mismatch(len(r.log), "mux-panic", fmt.Sprintf("panic in the channel code: %v at %s", p, strings.TrimSpace(first)), "no panic", fmt.Sprint(p))
+				}
 			}
 		}()
 		r.body(addCloser)
@@ -291,14 +310,15 @@ func (r *vfC02MuxRun) body(addCloser func(func())) {
 			if op.S("by") == "b" {
 				opener, accepter = mb, ma
 			}
+			// the connection is healthy: a session that cannot open or accept a stream carries no bytes
 			so, err := opener.OpenStream(context.Background())
 			if err != nil {
-				r.mismatch(si, "MACHINERY", "OpenStream: "+err.Error(), nil, nil)
+				r.mismatch(si, "mux-session-failed", "OpenStream on a healthy connection: "+err.Error(), "stream", err.Error())
 				return
 			}
 			sa, err := accepter.AcceptStream()
 			if err != nil {
-				r.mismatch(si, "MACHINERY", "AcceptStream: "+err.Error(), nil, nil)
+				r.mismatch(si, "mux-session-failed", "AcceptStream on a healthy connection: "+err.Error(), "stream", err.Error())
 				return
 			}
 			ea, eb := so, sa
@@ -385,6 +405,8 @@ func (r *vfC02MuxRun) body(addCloser func(func())) {
 	r.res.Count(1, steps)
 }
 
+var vfC02Stalled atomic.Bool
+
 func TestVerifC02Mux(t *testing.T) {
 	res := vfh.NewResult()
 	res.Rule = "distinct = (operation, direction, size class, eof, after own CloseWrite) combinations executed on real yamux sessions"
@@ -426,11 +448,14 @@ func TestVerifC02Mux(t *testing.T) {
 					return &vfC02MuxRun{res: res, file: j.f, w: j.w, stack: j.stack, a: a, b: b,
 						pick: vfc02.Picker{Seed: uint64(vfh.Seed()), Round: j.rd}}
 				}
-				if mk().run(30 * time.Second) {
+				if vfC02Stalled.Load() {
+					continue // a reproduced stall has been reported: the rest would only wait for watchdogs
+				}
+				if mk().run(20 * time.Second) {
 					// bytes handed to Write never arrived within the watchdog: a violation only if it reproduces
 					res.Inc("mux_stalls", 1)
 					r2 := mk()
-					if r2.run(60 * time.Second) {
+					if r2.run(40*time.Second) && !vfC02Stalled.Swap(true) {
 						r2.mismatch(len(j.w.Steps), "mux-stall", "bytes handed to Write did not reach the reader (the walk stalled twice)", "delivery", "stall")
 					}
 				}
@@ -504,12 +529,12 @@ func vfC02MuxStress(res *vfh.Result, stack string, a, b *vfC02SecPeer, seed uint
 		}
 		so, err := opener.OpenStream(context.Background())
 		if err != nil {
-			report("MACHINERY", "OpenStream: "+err.Error(), nil, nil)
+			report("mux-session-failed", "OpenStream on a healthy connection: "+err.Error(), "stream", err.Error())
 			return
 		}
 		sa, err := accepter.AcceptStream()
 		if err != nil {
-			report("MACHINERY", "AcceptStream: "+err.Error(), nil, nil)
+			report("mux-session-failed", "AcceptStream on a healthy connection: "+err.Error(), "stream", err.Error())
 			return
 		}
 		for d, ends := range [][2]network.MuxedStream{{so, sa}, {sa, so}} {
